@@ -405,7 +405,7 @@ def _import_worker(d, task, extra):
     os.makedirs(dwbattery.DWDIR, exist_ok=True)
     path = os.path.join(dwbattery.DWDIR, "c06i-%d.o" % os.getpid())
     out = {"files": 0, "queries": 0, "results": 0, "dies": 0, "bad": []}
-    for desc in itertools.islice(itertools.chain(c05.family(thorough), c05.family_bodies(thorough)), k, None, m):
+    for desc in itertools.islice(itertools.chain(c05.family(thorough), c05.family_bodies(thorough), c05.family_cuimport()), k, None, m):
         elf = c05.build_import_family(desc)
         elf.write(path)
         view = dwmodel.View(elf, 1)
@@ -480,7 +480,7 @@ def replay(case):
             r = _long_worker(d, [case["version"]], None)
         elif case["part"] == "import":
             desc = json.loads(case["desc"])
-            desc = (desc[0], tuple(desc[1]), desc[2], desc[3], desc[4]) + ((tuple(desc[5]),) if len(desc) > 5 else ())
+            desc = (desc[0], tuple(desc[1]), desc[2], desc[3], desc[4]) + ((tuple(desc[5]),) if len(desc) > 5 else ()) + tuple(desc[6:])
             elf = c05.build_import_family(desc)
             path = os.path.join(dwbattery.DWDIR, "c06-replay-%d.o" % os.getpid())
             elf.write(path)
